@@ -15,6 +15,7 @@
 package main
 
 import (
+	"encoding/hex"
 	"fmt"
 	"net/url"
 	"os"
@@ -23,8 +24,12 @@ import (
 
 	envoy_rbac_v3 "github.com/envoyproxy/go-control-plane/envoy/config/rbac/v3"
 	envoy_http_rbac_v3 "github.com/envoyproxy/go-control-plane/envoy/extensions/filters/http/rbac/v3"
+	envoy_hcm_v3 "github.com/envoyproxy/go-control-plane/envoy/extensions/filters/network/http_connection_manager/v3"
 	envoy_network_rbac_v3 "github.com/envoyproxy/go-control-plane/envoy/extensions/filters/network/rbac/v3"
+	testinf "github.com/mitchellh/go-testing-interface"
 	"google.golang.org/protobuf/proto"
+
+	"github.com/hashicorp/consul/agent/proxycfg"
 
 	"github.com/hashicorp/consul/agent/structs"
 	"github.com/hashicorp/consul/agent/xds"
@@ -32,6 +37,9 @@ import (
 )
 
 const dest = "api"
+
+// commaNames: generate callers named `<source>,x` (known finding rbac:xfcc-service-name-with-comma)
+const commaNames = true
 
 func urlUnsafe(s string) bool {
 	u := url.URL{Path: "/" + s}
@@ -99,6 +107,75 @@ func callFilter(e envT, xs []*structs.Intention, dflt, http bool) (res result) {
 	return result{rb: cfg.GetRules()}
 }
 
+// callListener builds a connect-proxy config snapshot carrying the intentions, runs the real
+// listener code and digs the RBAC rules out of the public listener. It also checks where the
+// authorization filter sits.
+func callListener(e envT, xs []*structs.Intention, dflt, http bool, snap *proxycfg.ConfigSnapshot) (res result, placement string) {
+	defer func() {
+		if p := recover(); p != nil {
+			res = result{panic: fmt.Sprint(p)}
+		}
+	}()
+	snap.Address = "10.0.0.1" // an empty address makes the listener code ask the local agent for its bind address
+	snap.ConnectProxy.Intentions = cloneIxns(xs)
+	snap.ConnectProxy.IntentionsSet = true
+	snap.IntentionDefaultAllow = dflt
+	snap.ConnectProxy.InboundPeerTrustBundles = e.proto()
+	snap.ConnectProxy.InboundPeerTrustBundlesSet = true
+	l, err := xds.VerifPublicListener(snap)
+	if err != nil {
+		return result{err: err}, ""
+	}
+	var found *envoy_rbac_v3.RBAC
+	for _, fc := range l.GetFilterChains() {
+		fs := fc.GetFilters()
+		if len(fs) == 0 {
+			return result{err: fmt.Errorf("empty filter chain")}, ""
+		}
+		if !http {
+			if fs[0].GetName() != "envoy.filters.network.rbac" {
+				return result{err: fmt.Errorf("first network filter is %q", fs[0].GetName())}, "authz-filter-not-first"
+			}
+			var cfg envoy_network_rbac_v3.RBAC
+			if err := fs[0].GetTypedConfig().UnmarshalTo(&cfg); err != nil {
+				return result{err: err}, ""
+			}
+			found = cfg.GetRules()
+			continue
+		}
+		var hcm envoy_hcm_v3.HttpConnectionManager
+		last := fs[len(fs)-1]
+		if err := last.GetTypedConfig().UnmarshalTo(&hcm); err != nil {
+			return result{err: err}, ""
+		}
+		seenRouter := false
+		for _, hf := range hcm.GetHttpFilters() {
+			switch hf.GetName() {
+			case "envoy.filters.http.router":
+				seenRouter = true
+			case "envoy.filters.http.rbac":
+				if seenRouter {
+					placement = "authz-filter-after-router"
+				}
+				var cfg envoy_http_rbac_v3.RBAC
+				if err := hf.GetTypedConfig().UnmarshalTo(&cfg); err != nil {
+					return result{err: err}, ""
+				}
+				found = cfg.GetRules()
+			}
+		}
+		for _, f := range fs {
+			if f.GetName() == "envoy.filters.network.rbac" {
+				placement = "network-rbac-on-http-listener"
+			}
+		}
+	}
+	if found == nil {
+		return result{err: fmt.Errorf("no RBAC filter in the public listener")}, "authz-filter-missing"
+	}
+	return result{rb: found}, placement
+}
+
 // ---------------------------------------------------------------- one rbac case
 
 type rbacCase struct {
@@ -109,11 +186,25 @@ type rbacCase struct {
 	callers []caller
 	reqs    []*request
 	canon   bool // precedences are the ones UpdatePrecedence computes
+	snap    *proxycfg.ConfigSnapshot // when set, the rules are taken from the public listener
 }
 
 func (c *rbacCase) op() string {
 	return fmt.Sprintf("rbac %s %s %s %s %s %s %s", hx.EncBool(c.dflt), hx.EncBool(c.http), hx.EncS(c.env.localTD),
 		encBundles(c.env.bundles), encIxns(c.ixns), encCallers(c.callers), encReqs(c.reqs, allPerms(c.ixns)))
+}
+
+var hexTok = regexp.MustCompile(`\bx((?:[0-9a-f]{2})+)\b`)
+
+// readable decodes the hex tokens of a canonical line for violation descriptions
+func readable(s string) string {
+	return hexTok.ReplaceAllStringFunc(s, func(t string) string {
+		b, err := hex.DecodeString(t[1:])
+		if err != nil {
+			return t
+		}
+		return "`" + string(b) + "`"
+	})
 }
 
 func bitsOf(bs []bool) string {
@@ -182,6 +273,17 @@ func runRBAC(run *hx.Run, c *rbacCase) {
 		specS[i] = bitsOf(spec[i])
 	}
 	res := callFilter(c.env, c.ixns, c.dflt, c.http)
+	if c.snap != nil {
+		viaFilter := res
+		var placement string
+		res, placement = callListener(c.env, c.ixns, c.dflt, c.http, c.snap)
+		if placement != "" {
+			run.Violate("listeners:"+placement, "public listener of a connect proxy: "+placement, []string{op})
+		}
+		if (res.rb == nil) != (viaFilter.rb == nil) || (res.rb != nil && !proto.Equal(res.rb, viaFilter.rb)) {
+			run.Violate("listeners:public-listener-rbac-differs-from-filter", "rules in the public listener differ from makeRBAC*Filter on the same input", []string{op})
+		}
+	}
 	nontrivial := len(c.ixns) > 0
 	run.Case(op, nontrivial)
 	if res.panic != "" {
@@ -274,6 +376,29 @@ func runRBAC(run *hx.Run, c *rbacCase) {
 	if r2.rb == nil || !proto.Equal(r2.rb, rb) {
 		run.Violate("rbac:filter-or-order-dependent", "makeRBACRules on the reversed input differs from the filter's rules", []string{op})
 	}
+	if c.canon {
+		// with the precedences of UpdatePrecedence the deciding intention is the most specific
+		// matching one: exact destination before wildcard destination, then exact source
+		xf := expectXFCC(c.env, c.http, c.ixns)
+		rank := func(x *structs.Intention) int {
+			n := 0
+			if x.DestinationName != "*" {
+				n += 2
+			}
+			if x.SourceName != "*" {
+				n++
+			}
+			return n
+		}
+		for _, k := range c.callers {
+			_, dec := decide(c.env, c.ixns, c.dflt, c.http, k, reqs[0])
+			for _, x := range c.ixns {
+				if sourceMatches(c.env, xf, x.SourcePeer, x.SourceName, k) && (dec == nil || rank(x) > rank(dec)) {
+					run.Violate("intentions:decider-is-not-most-specific", fmt.Sprintf("caller %s: %v matches and is more specific than the deciding intention", k.wire().principal, x), []string{op})
+				}
+			}
+		}
+	}
 	for i, k := range c.callers {
 		valid := c.validCaller(k)
 		run.Tag("caller:" + k.class)
@@ -299,9 +424,12 @@ func runRBAC(run *hx.Run, c *rbacCase) {
 			sig := fmt.Sprintf("rbac:policy-%s-intentions-%s:%s", got, want, k.class)
 			if urlUnsafe(name) && mentioned(c.ixns, func(string) bool { return true }, name) {
 				sig = "rbac:source-name-needs-url-escaping"
+			} else if i := strings.IndexByte(name, ','); i > 0 && k.hasFwd && k.direct.kind == 'g' &&
+				mentioned(c.ixns, func(p string) bool { return p != "" }, name[:i]) {
+				sig = "rbac:xfcc-service-name-with-comma"
 			}
 			run.Violate(sig, fmt.Sprintf("caller %s (xfcc=%v) request %d: RBAC %s, intentions say %s; policy %s",
-				k.wire().principal, k.hasFwd, j, got, want, s), []string{op})
+				k.wire().principal, k.hasFwd, j, got, want, readable(s)), []string{op})
 			break
 		}
 	}
@@ -318,6 +446,9 @@ func nearMisses(n string) []string {
 		}
 	}
 	out = append(out, n+"x", "x"+n)
+	if commaNames {
+		out = append(out, n+",x")
+	}
 	if len(n) > 1 {
 		out = append(out, n[:len(n)-1])
 	}
@@ -562,6 +693,41 @@ func finishCase(r *hx.RNG, c *rbacCase, maxCallers, nReqs int) {
 	}
 }
 
+// listenerStream: the same cases, but the rules are taken out of the public listener that
+// the real listener code builds from a connect-proxy config snapshot.
+func listenerStream(run *hx.Run, n, maxCallers int) {
+	snaps := map[bool]*proxycfg.ConfigSnapshot{}
+	for _, http := range []bool{false, true} {
+		protocol := "tcp"
+		if http {
+			protocol = "http"
+		}
+		func() {
+			defer func() {
+				if p := recover(); p != nil {
+					run.Tag("listener:snapshot-unavailable")
+				}
+			}()
+			snaps[http] = proxycfg.TestConfigSnapshot(&testinf.RuntimeT{}, func(ns *structs.NodeService) {
+				ns.Proxy.Config["protocol"] = protocol
+			}, nil)
+		}()
+	}
+	for i := 0; i < n; i++ {
+		r := run.RNG.Fork(uint64(5_000_000 + i))
+		c := genCaseCE(r, run, pickNames(r, namePool))
+		snap := snaps[c.http]
+		if snap == nil {
+			continue
+		}
+		c.snap = snap
+		c.env.localTD = snap.Roots.TrustDomain
+		finishCase(r, c, maxCallers, 4)
+		run.Tag("stream:public-listener")
+		runRBAC(run, c)
+	}
+}
+
 // ---------------------------------------------------------------- exhaustive small scope
 
 func exhaustive(run *hx.Run, maxSize int) {
@@ -751,6 +917,13 @@ func helperStream(run *hx.Run, r *hx.RNG, n int) {
 		run.Line("esc "+hx.EncS(s), "s="+hx.EncS(u.EscapedPath()))
 	}
 	run.Tag("op:esc-all-bytes")
+	for _, src := range []string{"web", "*", "w*", ""} {
+		for _, dst := range []string{"api", "*", "a*"} {
+			x := &structs.Intention{SourceNS: "default", DestinationNS: "default", SourceName: src, DestinationName: dst}
+			x.UpdatePrecedence()
+			run.Line("prec "+hx.EncS(src)+" "+hx.EncS(dst), fmt.Sprintf("p=%d", x.Precedence))
+		}
+	}
 	for i := 0; i < n; i++ {
 		// spiffe ids
 		id := ident{kind: 's', td: hx.Pick(r, []string{localTD, tdP1, tdP2}), ap: hx.Pick(r, []string{"", "default", "ap1", "AP1", "Default"}),
@@ -825,6 +998,18 @@ func corpus(run *hx.Run) {
 	runRBAC(run, &rbacCase{env: env, dflt: true, canon: true,
 		ixns:    []*structs.Intention{mk("a b", "", dest, "deny")},
 		callers: []caller{local("a b"), local("ab")}})
+	if commaNames {
+		// finding: the XFCC pattern's optional tail absorbs the rest of a service name after a comma
+		envP := envT{localTD: localTD, bundles: []bundle{bundlePool[0]}}
+		viaGW := func(n string) caller {
+			return caller{direct: ident{kind: 'g', td: localTD, dc: "dc1"}, hasFwd: true,
+				fwd: []xelem{{xfccPre, ident{kind: 's', td: tdP1, ns: "default", dc: "dc2", name: n}}}, class: "xfcc"}
+		}
+		runRBAC(run, &rbacCase{env: envP, dflt: false, http: true, canon: true,
+			ixns:    []*structs.Intention{mk("web", "p1", dest, "allow")},
+			callers: []caller{viaGW("web"), viaGW("web,x"), viaGW("webx")},
+			reqs:    []*request{{path: "/", headers: [][2]string{{":method", "GET"}}}}})
+	}
 	run.Tag("stream:corpus")
 }
 
@@ -861,10 +1046,11 @@ func main() {
 		run.Tag("stream:url-unsafe-names")
 		runRBAC(run, c)
 	}
+	listenerStream(run, run.Scale(60, 400), maxCallers)
 	patternStream(run, run.RNG.Fork(3_000_000), run.Scale(1500, 12000))
 	helperStream(run, run.RNG.Fork(4_000_000), run.Scale(300, 2500))
 	if run.Thorough() && run.Seed == 1 || os.Getenv("VERIF_C14_EXHAUSTIVE") != "" {
-		exhaustive(run, 3)
+		exhaustive(run, 4)
 	} else {
 		exhaustive(run, 2)
 	}
